@@ -28,5 +28,16 @@ Lemma seed_plan_l :
   0 < pt_spawn_width /\ pt_spawn_pick < pt_spawn_width.
 Proof. repeat split; try reflexivity; vm_compute; lia. Qed.
 
-Lemma seeded_plan_spawns : forall k, k = KSeedLike \/ k = KSeedSequence -> pt_seed_plan k <> PlanNoSeed.
-Proof. intros k [H|H]; subst; discriminate. Qed.
+(* seeds are VALUES: the seed that is false in a truth test (zero) is wrapped and spawned like every other number *)
+Lemma zero_is_a_seed_l : pt_seed_plan KSeedZero = pt_seed_plan KSeedLike /\ pt_seed_plan KSeedZero = PlanWrap.
+Proof. split; reflexivity. Qed.
+
+Lemma seeded_plan_spawns : forall k, k = KSeedLike \/ k = KSeedSequence \/ k = KSeedZero -> pt_seed_plan k <> PlanNoSeed.
+Proof. intros k [H|[H|H]]; subst; discriminate. Qed.
+
+(* nothing on a train() path keeps state outside the components (scan of the source, regenerated) *)
+Lemma outside_state_empty_l : outside_state = [].
+Proof. reflexivity. Qed.
+
+Lemma keeps_nothing_outside_l : train_keeps_outside = false.
+Proof. reflexivity. Qed.
